@@ -290,7 +290,7 @@ def bytes_truncate(ctx):
     n = ctx.args[1].t
     b = loc.val
     newlen = simp(z3.If(z3.ULE(n, b.len), n, b.len))
-    nb = b.slice(0, newlen, b.kind)
+    nb = ex.bslice(st, b, 0, newlen, b.kind)
     c = cap_of(b)
     if c is not None:
         nb = with_cap(nb, c)
@@ -1402,3 +1402,92 @@ def seq_partition_point(ctx):
         res = z3.If(preds[i], res, BV(i, 64))
     st.env.setdefault('partition_preds', []).append(preds)
     return Int(simp(res), 64, False)
+
+
+# --------------------------------------------------------------------------- vec![a, b, c] lowering (Box<MaybeUninit<[T; N]>>)
+
+@contract(r'^Box::<.*>::new_uninit$')
+def box_new_uninit(ctx):
+    c = ctx.st.alloc(Agg('MaybeUninit', {}))
+    return Ref(c, ())
+
+
+@contract(r'^std::boxed::box_assume_init_into_vec_unsafe::<.*>$|^alloc::boxed::box_assume_init_into_vec_unsafe::<.*>$')
+def box_assume_init_into_vec(ctx):
+    v = ctx.ex.deref(ctx.st, ctx.args[0])
+    for _ in range(4):
+        if isinstance(v, Agg) and v.name != 'tuple' and not isinstance(v, (Bytes, SeqV)):
+            nxt = v.fields.get(1, v.fields.get(0))
+            if nxt is None:
+                break
+            v = nxt
+        else:
+            break
+    if isinstance(v, Bytes):
+        return v.retag('vec')
+    if isinstance(v, SeqV):
+        return SeqV(v._at, v.len, v.items, v.elem_ty, 'vec')
+    return NotImplemented
+
+
+# --------------------------------------------------------------------------- derived PartialEq on modelled values
+
+def value_eq(ex, st, a, b, depth=0):
+    """z3 Bool for structural equality of two modelled values (what #[derive(PartialEq)] / std impls compute);
+    None when a part is not modelled"""
+    if depth > 6:
+        return None
+    a = ex.deref(st, a) if isinstance(a, Ref) else a
+    b = ex.deref(st, b) if isinstance(b, Ref) else b
+    if isinstance(a, Int) and isinstance(b, Int) and a.bits == b.bits:
+        return a.t == b.t
+    if isinstance(a, Bool) and isinstance(b, Bool):
+        return a.t == b.t
+    if a is UNIT and b is UNIT:
+        return z3.BoolVal(True)
+    if isinstance(a, Bytes) and isinstance(b, Bytes):
+        return bytes_equal(ex, st, a, b)
+    if isinstance(a, Agg) and isinstance(b, Agg):
+        conj = []
+        if (a.discr is None) != (b.discr is None):
+            return None
+        for k in set(a.fields) | set(b.fields):
+            if k not in a.fields or k not in b.fields:
+                return None
+            e = value_eq(ex, st, a.fields[k], b.fields[k], depth + 1)
+            if e is None:
+                return None
+            conj.append(e)
+        if a.discr is not None:
+            da = BV(a.discr, 64) if isinstance(a.discr, int) else a.discr
+            db = BV(b.discr, 64) if isinstance(b.discr, int) else b.discr
+            conj.append(da == db)
+            for k in set(a.variants) | set(b.variants):
+                pa, pb = a.variants.get(k), b.variants.get(k)
+                if not pa and not pb:
+                    continue
+                ca = a.discr if isinstance(a.discr, int) else concrete(a.discr)
+                cb = b.discr if isinstance(b.discr, int) else concrete(b.discr)
+                if (ca is not None and ca != k) or (cb is not None and cb != k):
+                    continue   # this variant cannot be the common one
+                if pa is None or pb is None:
+                    return None
+                for i in set(pa) | set(pb):
+                    if i not in pa or i not in pb:
+                        return None
+                    e = value_eq(ex, st, pa[i], pb[i], depth + 1)
+                    if e is None:
+                        return None
+                    conj.append(z3.Implies(da == BV(k, 64), e))
+        return z3.And(conj) if conj else z3.BoolVal(True)
+    return None
+
+
+@contract(r'^<.* as PartialEq(?:<.*>)?>::(eq|ne)$')
+def generic_partial_eq(ctx):
+    e = value_eq(ctx.ex, ctx.st, ctx.args[0], ctx.args[1])
+    if e is None:
+        return NotImplemented
+    if ctx.callee.endswith('::ne'):
+        e = z3.Not(e)
+    return Bool(simp(e))
